@@ -118,6 +118,43 @@ def main():
         extra_obls += r["obligations"]
         extra_assumptions += r.get("assumptions", [])
 
+    # ---- bounded stand-ins (thorough tier): structured + seeded random inputs against the real crate, labelled bounded
+    bounded = list(spec.get("bounded", []))
+    bounded_cex = []
+    if tier == "thorough":
+        from vx import replay as vreplay
+        for (feat, probe) in spec.get("probes", []):
+            r = vreplay.run_probe(feat, probe, seed or 1, iters=256, timeout=3000)
+            bounded.append(dict(kind="bounded", build=feat, probe=probe, status=r.get("status"), checks=r.get("checks", 0),
+                                bound="boundary values of the property's quantifier text + 256 seeded random inputs per family",
+                                detail=r.get("detail", "")))
+            if r.get("status") == "cex":
+                bounded_cex.append((feat, probe, r))
+
+    # ---- watched files: code the property depends on but that no contract reaches (listed as bounded / assumed).
+    # When such a file differs from the baseline lock, its bounded probes run already in the quick tier.
+    import hashlib as _hl
+    base0 = load_baseline()
+    watch_report = []
+    for wf, wprobes in spec.get("watch", {}).items():
+        pth = os.path.join(REPO, wf)
+        cur = _hl.sha256(open(pth, "rb").read()).hexdigest() if os.path.exists(pth) else "missing"
+        old = base0.get("file::" + wf, {}).get("sha256")
+        changed = old is not None and old != cur
+        entry = dict(file=wf, changed=changed, probes=[])
+        if changed and tier != "thorough":
+            from vx import replay as vreplay
+            for (feat, probe) in wprobes:
+                r = vreplay.run_probe(feat, probe, seed or 1, iters=128, timeout=1800)
+                entry["probes"].append(dict(build=feat, probe=probe, status=r.get("status"), checks=r.get("checks", 0)))
+                if r.get("status") == "cex":
+                    bounded_cex.append((feat, probe, r))
+        watch_report.append(entry)
+        if os.environ.get("VERIF_UPDATE_LOCK"):
+            base0["file::" + wf] = dict(sha256=cur)
+    if os.environ.get("VERIF_UPDATE_LOCK") and spec.get("watch"):
+        save_baseline(base0)
+
     # ---- which obligations belong to the property
     primary = set(unit_names)
     wanted = []   # (unit, module, fnmeta, verdict)
@@ -293,16 +330,25 @@ def main():
                             cover_twins_checked=(0 if a.no_cover else len(wanted)),
                             vacuous=vac,
                             samples=samples,
-                            bounded=spec.get("bounded", []),
+                            bounded=bounded,
+                            watched_files=watch_report,
                             not_decided=spec.get("not_decided", []),
                             explanation=spec.get("explanation", ""),
                             exhaustive=False),
-              assumptions=assumptions, wall_s=round(wall, 2), violations=len(real_fail))
+              assumptions=assumptions, wall_s=round(wall, 2), violations=len(real_fail) + len(bounded_cex))
     with open(os.path.join(EVID, f"{pid}.json"), "w") as f:
         json.dump(ev, f, indent=1)
 
     for oid, k in kf_lines:
         print(f"KNOWN-FINDING: property={pid} {oid} {k.get('text', '')}")
+    if bounded_cex and not real_fail:
+        rp = os.path.join(REPLAY, f"{pid}.json")
+        json.dump(dict(property=pid, failed_obligations=[dict(obligation=f"bounded probe {pr} ({ft} build)", counterexample=r) for (ft, pr, r) in bounded_cex]),
+                  open(rp, "w"), indent=1)
+        for (ft, pr, r) in bounded_cex:
+            print(f"FAILED-BOUNDED-CHECK {pr} ({ft}): {r.get('check')} input={str(r.get('input'))[:200]}")
+        print(f"VIOLATION property={pid} replay={rp}")
+        return 1
     if real_fail:
         rp = os.path.join(REPLAY, f"{pid}.json")
         rep = dict(property=pid, failed_obligations=[])
